@@ -217,6 +217,17 @@ func widePrograms() []*gen.Node {
 			sweeps = append(sweeps, gen.VCL(gen.Sub("vcl_recv", ifs)))
 		}
 	}
+	// a multi-line long string as an operand of a condition / value that is broken over several lines
+	ml := gen.LongStr("line1\nline2\n   line3 indented\n\tline4 tab", "")
+	mlCond := gen.Infix(gen.Infix(gen.Infix(gen.Ident("req.http.Aaaaaaaaaaaaaaaaaaaaaaaaaaaaaaaaaaaaaaaaaaaa"), "==", gen.Str("xxxxxxxxxxxxxxxxxxxxxxxxxxxxxxxxxxxxxxxx")), "&&", gen.Infix(gen.Ident("req.http.B"), "==", ml)), "&&", gen.Infix(gen.Ident("req.http.Cccccccccccccccccccccccccccccccccccccc"), "~", gen.Str("^/some/long/path/prefix/that/forces/wrapping")))
+	mlCat := gen.Concat(gen.Concat(gen.Str("aaaaaaaaaaaaaaaaaaaaaaaaaaaaaaaaaaaaaaaaaaaaaaaaaaaaaaaaaaaa"), true, ml.Clone()), true, gen.Str("bbbbbbbbbbbbbbbbbbbbbbbbbbbbbbbbbbbbbbbbbbbbbbbbbbbbbbbbbbbbbbbbbbbbbbbbbb"))
+	ifs2 := gen.If(gen.Ident("req.http.A"), gen.N("EsiStatement"))
+	ifs2.Set("Another", []*gen.Node{gen.ElseIf("else if", mlCond.Clone(), gen.N("EsiStatement"))})
+	sweeps = append(sweeps,
+		gen.VCL(gen.Sub("vcl_recv", gen.If(mlCond, gen.N("EsiStatement")))),
+		gen.VCL(gen.Sub("vcl_recv", ifs2)),
+		gen.VCL(gen.Sub("vcl_recv", gen.Set("req.http.A", "=", mlCat), gen.N("LogStatement", "Value", mlCat.Clone()), gen.N("SyntheticStatement", "Value", mlCat.Clone()))),
+	)
 	return append([]*gen.Node{
 		gen.VCL(gen.Sub("vcl_recv", gen.Set("req.http.A", "=", cat), gen.N("LogStatement", "Value", cat.Clone()))),
 		gen.VCL(gen.Sub("vcl_recv", gen.If(cond, gen.N("EsiStatement")))),
